@@ -701,6 +701,23 @@ fn quals_step(q: &mut Qualifiers, a: &[&str]) -> Result<String, String> {
                 Err(e) => e.full(),
             }
         },
+        "tfih" => {
+            // try_from_iter over an iterator whose size hint is (0, Some(usize::MAX)): nothing may be reserved up front
+            let mut items: Vec<(String, String)> = vec![];
+            let mut i = 1;
+            while i + 1 < a.len() {
+                items.push((unh(a[i])?, unh(a[i + 1])?));
+                i += 2;
+            }
+            let it = (0..usize::MAX).map_while(|i| items.get(i).map(|(k, v)| (k.as_str(), v.as_str())));
+            match Qualifiers::try_from_iter(it) {
+                Ok(nq) => {
+                    *q = nq;
+                    "OK".to_string()
+                },
+                Err(e) => e.full(),
+            }
+        },
         "eqk" | "cmpk" => {
             let i: usize = arg(a, 1)?.parse().map_err(|_| "bad index".to_string())?;
             let s = unh(arg(a, 2)?)?;
@@ -1473,6 +1490,11 @@ fn op_shape(bits: &str, rest: &[&str]) -> Result<String, String> {
             let s = unh(arg(rest, 1)?)?;
             let r = GenericPurl::<Fam>::from_str(&s);
             Ok(fam_show(&r))
+        },
+        // `GenericPurl::new(type, name)`: documented as builder(type, name).build()
+        "new" => {
+            let r = GenericPurl::new(Fam::make(arg(rest, 1)?)?, unh(arg(rest, 2)?)?.as_str());
+            Ok(format!("b={}", fam_show(&r)))
         },
         "build" => {
             let b = GenericPurlBuilder::new(Fam::make(arg(rest, 1)?)?, unh(arg(rest, 2)?)?.as_str());
